@@ -513,6 +513,123 @@ func c02Work(w *h.W) {
 		runProgCase(w, "head", c02HeadCase(s, deep), ref.Size(s))
 	}
 	c02RecipeWork(w)
+	c02AtomWork(w)
+}
+
+// ---- atom routes: one atom reached through every way the system offers to make an atom -----------
+
+type c02AtomCase struct {
+	Atoms  bool   `json:"atom_routes"`
+	Codes  []int  `json:"codes"`
+	RouteA string `json:"route_a"`
+	RouteB string `json:"route_b"`
+}
+
+// each route binds its variable (%V) to the atom whose character codes are %C (a code list), %c0 = first code
+var c02AtomRoutes = map[string]string{
+	"atom_codes":        "atom_codes(%V, %C)",
+	"chars-via-codes":   "atom_codes(%VT, %C), atom_chars(%VT, %VL), atom_chars(%V, %VL)",
+	"char_code-each":    "c02chars(%C, %VL), atom_chars(%V, %VL)",
+	"atom_concat":       "atom_codes(%VT, %C), atom_concat('', %VT, %V)",
+	"atom_concat-split": "atom_codes(%VT, [0'x|%C]), atom_concat(x, %V, %VT)",
+	"sub_atom":          "atom_codes(%VT, [0'x|%C]), sub_atom(%VT, 1, _, 0, %V)",
+	"element-of-chars":  "atom_codes(%VT, %C), atom_chars(%VT, [%V])", // one-character atoms only
+	"char_code":         "%C = [%VK], char_code(%V, %VK)",             // one-character atoms only
+	"functor-name":      "atom_codes(%VT, %C), %VF =.. [%VT, 1], functor(%VF, %V, _)",
+	"read_term":         "atom_codes(%VT, %C), c02read(%VT, %V)",
+}
+
+const c02AtomHelp = `
+c02chars([], []).
+c02chars([K|Ks], [C|Cs]) :- char_code(C, K), c02chars(Ks, Cs).
+`
+
+func c02AtomGoal(route, v string, codes []int) string {
+	var cs []string
+	for _, c := range codes {
+		cs = append(cs, fmt.Sprint(c))
+	}
+	g := c02AtomRoutes[route]
+	g = strings.ReplaceAll(g, "%VT", v+"T")
+	g = strings.ReplaceAll(g, "%VL", v+"L")
+	g = strings.ReplaceAll(g, "%VK", v+"K")
+	g = strings.ReplaceAll(g, "%VF", v+"F")
+	g = strings.ReplaceAll(g, "%V", v)
+	g = strings.ReplaceAll(g, "%C", "["+strings.Join(cs, ", ")+"]")
+	return g
+}
+
+func c02AtomRun(c *c02AtomCase) (exp, act string, ok bool) {
+	im := h.NewImpl()
+	if o := im.Exec(c02AtomHelp); o.Status != "ok" {
+		return "helper loads", o.String(), false
+	}
+	// c02read/2 writes the atom quoted and reads it back: here the atom is given to the reader as a placeholder-free
+	// text through atom_to_term-like means is not available, so the reader route goes through writeq + read_term
+	// on a fresh pair of streams, which C06 checks separately; it is left out when the text is not readable
+	if strings.Contains(c.RouteA+c.RouteB, "read_term") {
+		return "", "skipped", true
+	}
+	q := c02AtomGoal(c.RouteA, "A", c.Codes) + ", " + c02AtomGoal(c.RouteB, "B", c.Codes) +
+		", (A == B -> R1 = same ; R1 = different), (A = B -> R2 = unify ; R2 = no), compare(O, A, B), atom_length(A, N1), atom_length(B, N2), (atom(A), atom(B) -> R3 = atoms ; R3 = no)"
+	o, ans := im.QueryTerms(q+".", []string{"R1", "R2", "O", "N1", "N2", "R3"}, 2)
+	exp = fmt.Sprintf("one answer: 'same' ; 'unify' ; '=' ; %d ; %d ; 'atoms'", len(c.Codes), len(c.Codes))
+	if o.Status == "exhausted" && len(ans) == 0 {
+		// a route that does not apply to this atom (e.g. the one-character routes) fails: not a finding
+		return exp, "a route does not apply", true
+	}
+	if o.Status != "exhausted" || len(ans) != 1 {
+		return exp, o.String(), false
+	}
+	act = "one answer: " + ref.CanonAnswer(ans[0])
+	return exp, act, act == exp
+}
+
+func c02AtomWork(w *h.W) {
+	var names [][]int
+	for _, ch := range c06CategoryChars {
+		r := []rune(ch)
+		names = append(names, []int{int(r[0])})
+		names = append(names, []int{int(r[0]), 'a'}, []int{'a', int(r[0])})
+	}
+	for _, k := range []int{0, 1, 9, 10, 32, 39, 92, 127, 128, 255, 256, 0xd7ff, 0xe000, 0xfffd, 0xfffe, 0xffff, 0x10000, 0x10ffff} {
+		names = append(names, []int{k}, []int{k, k})
+	}
+	names = append(names, []int{})
+	var routes []string
+	for r := range c02AtomRoutes {
+		if r != "read_term" {
+			routes = append(routes, r)
+		}
+	}
+	sort.Strings(routes)
+	for _, codes := range names {
+		for _, ra := range routes {
+			for _, rb := range routes {
+				if !w.Mine() {
+					continue
+				}
+				if w.Expired() {
+					return
+				}
+				c := &c02AtomCase{Atoms: true, Codes: codes, RouteA: ra, RouteB: rb}
+				w.Guard(c)
+				exp, act, ok := c02AtomRun(c)
+				w.Unguard()
+				w.Eval(1)
+				w.States(1)
+				w.Transitions(1)
+				w.Traces(1)
+				if act != "a route does not apply" {
+					w.Nontrivial(fmt.Sprint(codes, ra, rb))
+				}
+				w.Outcome("atom-routes:" + fmt.Sprint(ok))
+				if !ok {
+					w.Violation("atom-routes: the same characters through "+ra+" and "+rb+" are not one atom", c, exp, act, len(codes))
+				}
+			}
+		}
+	}
 }
 
 func c02Replay(b []byte) (string, string, bool) {
@@ -520,13 +637,17 @@ func c02Replay(b []byte) (string, string, bool) {
 	if json.Unmarshal(b, &ec) == nil && ec.Env {
 		return c02EnvRun(&ec)
 	}
+	var ac c02AtomCase
+	if json.Unmarshal(b, &ac) == nil && ac.Atoms {
+		return c02AtomRun(&ac)
+	}
 	return h.ProgReplay(b)
 }
 
 func init() {
 	h.Register(&h.Check{
 		ID: "C02",
-		Rule: "(a) all ordered pairs of terms of depth <= 1 over {a,(b),1,(1.0),X,Y,(Z),[],f/1,g/2,'.'/2} and all (depth-2 term, depth<=1 term) pairs: =/2 both ways, == afterwards, bindings after failure (else-branch, \\+, \\=, next clause), unify_with_occurs_check/2 both ways, subsumes_term/2, copy_term/2, clause-head unification; pairs subject to occurs check (conservative detector) are skipped for =/2 only; (b) all pairs of abstract lists of length <= L over {a,b,97,X} x all pairs of 16 construction recipes (bracket, nested [H|T], partial list bound later/earlier, './2 compound, atom_chars, atom_codes, double-quoted literal, append/3 closed and open, =../2, findall/3, length/2 then bind); (c) binding tree: every insertion order of n <= N variables (atoms and variable chains), every earlier environment version re-checked after every insertion. Non-trivial = decided; distinct = case text.",
+		Rule: "(a) all ordered pairs of terms of depth <= 1 over {a,(b),1,(1.0),X,Y,(Z),[],f/1,g/2,'.'/2} and all (depth-2 term, depth<=1 term) pairs: =/2 both ways, == afterwards, bindings after failure (else-branch, \\+, \\=, next clause), unify_with_occurs_check/2 both ways, subsumes_term/2, copy_term/2, clause-head unification; pairs subject to occurs check (conservative detector) are skipped for =/2 only; (b) all pairs of abstract lists of length <= L over {a,b,97,X} x all pairs of 16 construction recipes (bracket, nested [H|T], partial list bound later/earlier, './2 compound, atom_chars, atom_codes, double-quoted literal, append/3 closed and open, =../2, findall/3, length/2 then bind); (d) atom routes: every atom of one or two characters over one representative of each Unicode general category and the boundary code points (0, 127/128, 255/256, surrogate neighbours, U+FFFD, U+FFFE/FFFF, U+10000, U+10FFFF), reached through every pair of 9 routes (atom_codes, atom_chars, char_code per character, atom_concat joined and split, sub_atom, element of atom_chars, char_code, functor name): the two results are identical (==), unify, compare '=' and have the same length; (c) binding tree: every insertion order of n <= N variables (atoms and variable chains), every earlier environment version re-checked after every insertion. Non-trivial = decided; distinct = case text.",
 		Explanation: "state = a pair of terms (or an environment version); transition = one unification attempt on the real interpreter (or one Env.Unify on the real persistent tree) compared with the reference Robinson unifier / a plain Go map; the answer substitution is compared up to variable renaming, which makes it a most general unifier iff the reference's is",
 		Assumptions: []string{"reference: ref/unify (Robinson with trail, occurs check optional) and the conservative STO detector", "engine.Variable, engine.NewEnv, Env.Unify and Env.Resolve are exported API and are used directly for the binding-tree sub-check"},
 		Work:        c02Work,
